@@ -33,11 +33,23 @@ import (
 // raceBase is the case-index space of the race runs (so that a race violation has a replayable case number).
 const raceBase = 1000000
 
+// Case list: indices 0..24 ordinary trees, 25..27 "wide" trees (one language with 1024-1400 files); thorough
+// extends it: 28..499 ordinary, 500..519 wide.
 func cases(tier string) int {
 	if tier == "thorough" {
-		return 500
+		return 520
 	}
-	return 25
+	return 28
+}
+
+func isWide(idx int) bool { return (idx >= 25 && idx < 28) || (idx >= 500 && idx < raceBase) }
+
+// wideFiles: the length of the long list; the boundary value 1024 is drawn often.
+func wideFiles(r *run.Rand) int {
+	if r.Chance(1, 4) {
+		return 1024
+	}
+	return r.Range(1025, 1400)
 }
 
 func raceRuns(tier string) int {
@@ -61,10 +73,12 @@ var Check = &run.Check{
 		"0-3 root-level files; 1-6 of Java, Go, Python, JavaScript, C, Shell; every file has planted code/comment/blank line counts, whole-line comments only) " +
 		"x 4 executions of the real CLI: by-directory with cwd outside the tree (absolute, ../proj or proj argument) and with cwd = tree (`.`), top-file likewise, " +
 		"each with its own include-ext filter (none / subset / extension absent from the tree; -i and --include-ext forms) and top-size (default, 0..100); " +
+		"cases 25-27 (thorough also 500-519) are wide trees: ONE language with 1024-1400 files of 1-3 code lines plus ~40 scattered peaks of 4-60 lines over 8 sub-directories, " +
+		"3 top-file executions (N 1-20, default 30, 50-200 restricted to that language) + 1 by-directory; " +
 		"cloc.csv, the stdout table, sort_cloc.json and the printed tables are all checked by oracle/cloc.go; " +
 		"non-trivial = >= 2 non-ignored sub-directories with code, >= 2 languages, and at least one of: ignored directory with files, empty directory, root-level file; " +
 		"distinct = hash of (directory kinds with file counts, root file count, language set, filters, top sizes, cwd modes); " +
-		"plus coordinator-level race runs: coca built with -race on trees of several hundred files / 8 sub-directories under GOMAXPROCS 1,2,4,16",
+		"plus coordinator-level race runs: coca built with -race on trees of several hundred files / 8 sub-directories (every third run on a wide tree) under GOMAXPROCS 1,2,4,16",
 	Assumptions: []string{
 		"only text whose line classification is undisputed is generated (see gen/treegen: no shebang lines, docstrings, trailing comments, comment markers in strings, extension-less files, .gitignore)",
 		"ignored directory names occur only directly under the root; no path component other than the VCS directories ends in .git/.hg/.svn",
@@ -107,6 +121,7 @@ type observation struct {
 	Stderr   string   `json:"stderr,omitempty"`
 	Csv      string   `json:"cloc_csv,omitempty"`
 	SortJSON string   `json:"sort_cloc_json_reduced,omitempty"`
+	listLens []int
 }
 
 func (s spec) args(dirArg string) []string {
@@ -281,6 +296,7 @@ func execute(bin string, t *treegen.Tree, base string, s spec, env []string, rac
 			fmt.Fprintf(&red, " %s=%d", filepath.ToSlash(rel), f.Code)
 		}
 		red.WriteString("\n")
+		ob.listLens = append(ob.listLens, len(tl.Files))
 		langs = append(langs, tl)
 	}
 	ob.SortJSON = clip(red.String(), 6000)
@@ -353,6 +369,44 @@ func drawSpecs(r *run.Rand, t *treegen.Tree) []spec {
 	}
 }
 
+// wideCount is the length of the longest per-language file list of the tree.
+func wideCount(t *treegen.Tree) int {
+	n := map[string]int{}
+	best := 0
+	for _, f := range t.Files {
+		n[f.Lang]++
+		if n[f.Lang] > best {
+			best = n[f.Lang]
+		}
+	}
+	return best
+}
+
+func wideExt(t *treegen.Tree) string {
+	n := map[string]int{}
+	best, ext := 0, ""
+	for _, f := range t.Files {
+		n[f.Ext]++
+		if n[f.Ext] > best {
+			best, ext = n[f.Ext], f.Ext
+		}
+	}
+	return ext
+}
+
+// drawWideSpecs: three top-file executions on a wide tree (small N, default N, N larger than the peaks; one of them
+// restricted to the wide language) and one by-directory execution.
+func drawWideSpecs(r *run.Rand, t *treegen.Tree) []spec {
+	outside := []string{"outside-abs", "outside-rel", "outside-parent"}
+	small := []int{1, 3, 5, 10, 20}
+	return []spec{
+		{Mode: "top", Cwd: r.Pick(outside), TopN: small[r.Intn(len(small))], TopForm: r.Intn(2), FlagsFirst: r.Chance(1, 4)},
+		{Mode: "top", Cwd: "inside", TopN: -1},
+		{Mode: "top", Cwd: r.Pick(outside), Filter: []string{wideExt(t)}, FilterForm: r.Intn(4), TopN: []int{50, 100, 200}[r.Intn(3)], TopForm: r.Intn(2)},
+		{Mode: "bydir", Cwd: r.Pick([]string{"inside", "outside-abs"}), FilterForm: r.Intn(4)},
+	}
+}
+
 func treeStats(t *treegen.Tree) (dirsWithCode, langs int, special bool) {
 	code := map[string]int{}
 	ls := map[string]bool{}
@@ -404,8 +458,17 @@ func runCase(c *run.Ctx, o *run.Outcome) {
 		return
 	}
 	r := c.Rng
-	t := treegen.Generate(r.Fork(), caseOpts(r, c.Tier))
-	specs := drawSpecs(r.Fork(), t)
+	var t *treegen.Tree
+	var specs []spec
+	if isWide(c.Index) {
+		t = treegen.GenerateWide(r.Fork(), treegen.WideOpts{Files: wideFiles(r)})
+		specs = drawWideSpecs(r.Fork(), t)
+		o.Count("wide_cases", 1)
+		o.Count("wide_language_files", wideCount(t))
+	} else {
+		t = treegen.Generate(r.Fork(), caseOpts(r, c.Tier))
+		specs = drawSpecs(r.Fork(), t)
+	}
 	dirsWithCode, nLangs, special := treeStats(t)
 	o.NonTrivial = dirsWithCode >= 2 && nLangs >= 2 && special
 	var shape []interface{}
@@ -479,12 +542,12 @@ func countObserved(o *run.Outcome, t *treegen.Tree, s spec, ob observation) {
 		return
 	}
 	nl, nf := 0, 0
-	for _, l := range strings.Split(strings.TrimSpace(ob.SortJSON), "\n") {
-		if l == "" {
-			continue
-		}
+	for _, l := range ob.listLens {
 		nl++
-		nf += strings.Count(l, "=")
+		nf += l
+		if l >= 1024 {
+			o.Count("top_lists_with_1024+_entries_observed", 1)
+		}
 	}
 	o.Count("top_languages_observed", nl)
 	o.Count("top_list_entries_observed", nf)
@@ -499,16 +562,18 @@ func countObserved(o *run.Outcome, t *treegen.Tree, s spec, ob observation) {
 // the race monitor
 
 type raceResult struct {
-	Index      int               `json:"race_run"`
-	GOMAXPROCS int               `json:"gomaxprocs"`
-	Files      int               `json:"files"`
-	Subdirs    int               `json:"subdirs"`
-	Reports    int               `json:"race_reports"`
-	Pairs      map[string]string `json:"pairs,omitempty"` // sig -> first block
-	Mismatches []oracle.ClocMismatch
-	Problem    string `json:"problem,omitempty"`
-	Specs      []spec `json:"specs"`
-	WallS      float64
+	Index       int               `json:"race_run"`
+	GOMAXPROCS  int               `json:"gomaxprocs"`
+	Files       int               `json:"files"`
+	Subdirs     int               `json:"subdirs"`
+	Reports     int               `json:"race_reports"`
+	Pairs       map[string]string `json:"pairs,omitempty"` // sig -> first block
+	Mismatches  []oracle.ClocMismatch
+	Problem     string `json:"problem,omitempty"`
+	Specs       []spec `json:"specs"`
+	WallS       float64
+	Wide        bool
+	LongestList int
 }
 
 func raceTree(seed int64, tier string, i int) (*treegen.Tree, *run.Rand, int) {
@@ -517,14 +582,20 @@ func raceTree(seed int64, tier string, i int) (*treegen.Tree, *run.Rand, int) {
 	if tier == "thorough" {
 		total = r.Range(300, 1500)
 	}
-	t := treegen.Generate(r.Fork(), treegen.Opts{MinSubs: 8, MaxSubs: 8, MaxRootFiles: 6, MaxLines: 10, MaxLangs: 6, Big: true, TotalFiles: total})
+	var t *treegen.Tree
+	if i%3 == 2 {
+		// every third race run uses a wide tree (one language with >= 1024 files): long per-language lists
+		t = treegen.GenerateWide(r.Fork(), treegen.WideOpts{Files: wideFiles(r)})
+	} else {
+		t = treegen.Generate(r.Fork(), treegen.Opts{MinSubs: 8, MaxSubs: 8, MaxRootFiles: 6, MaxLines: 10, MaxLangs: 6, Big: true, TotalFiles: total})
+	}
 	return t, r, gomaxprocsValues[i%len(gomaxprocsValues)]
 }
 
 func raceRun(bin string, seed int64, tier string, i int, scratch string) raceResult {
 	start := time.Now()
 	t, r, gmp := raceTree(seed, tier, i)
-	res := raceResult{Index: i, GOMAXPROCS: gmp, Files: len(t.Files), Subdirs: len(t.Subs), Pairs: map[string]string{}}
+	res := raceResult{Index: i, GOMAXPROCS: gmp, Files: len(t.Files), Subdirs: len(t.Subs), Pairs: map[string]string{}, Wide: i%3 == 2, LongestList: wideCount(t)}
 	logDir := filepath.Join(scratch, "racelog")
 	os.MkdirAll(logDir, 0o755)
 	abs, err := filepath.Abs(logDir)
@@ -537,6 +608,13 @@ func raceRun(bin string, seed int64, tier string, i int, scratch string) raceRes
 	specs := []spec{
 		{Mode: "bydir", Cwd: cw[(i/4)%4], Filter: drawFilter(r, t, false), FilterForm: r.Intn(4)},
 		{Mode: "top", Cwd: cw[(i/4+1)%4], Filter: drawFilter(r, t, true), FilterForm: r.Intn(4), TopN: []int{5, 30, 200}[r.Intn(3)]},
+	}
+	if res.Wide {
+		// keep the long list in the top-file workload: no filter, or the wide language only
+		specs[1].Filter = nil
+		if r.Bool() {
+			specs[1].Filter = []string{wideExt(t)}
+		}
 	}
 	res.Specs = specs
 	for k, s := range specs {
@@ -708,6 +786,7 @@ func raceExtra(a *run.Aggregate) {
 	reports, done, mism, maxFiles := 0, 0, 0, 0
 	pairs := map[string]int{}
 	var slowest float64
+	wideRuns, longest := 0, 0
 	for _, res := range results {
 		if res.Problem != "" {
 			a.Inconclusive["race run: "+res.Problem]++
@@ -722,6 +801,12 @@ func raceExtra(a *run.Aggregate) {
 			slowest = res.WallS
 		}
 		perGmp[strconv.Itoa(res.GOMAXPROCS)]++
+		if res.Wide {
+			wideRuns++
+			if res.LongestList > longest {
+				longest = res.LongestList
+			}
+		}
 		reports += res.Reports
 		var sigs []string
 		for sig := range res.Pairs {
@@ -749,12 +834,15 @@ func raceExtra(a *run.Aggregate) {
 	info["workloads"] = "each run: `cloc DIR --by-directory [-i ...]` then `cloc DIR --top-file --top-size N [-i ...]`, 8 immediate sub-directories (plain, dotted, nested, ignored, empty)"
 	info["runs_per_gomaxprocs"] = perGmp
 	info["max_files"] = maxFiles
+	info["runs_on_wide_trees"] = wideRuns
+	info["longest_per_language_list"] = longest
 	info["race_reports"] = reports
 	info["distinct_race_pairs"] = pairs
 	info["oracle_mismatches_on_race_runs"] = mism
 	info["oracle_held_on_race_runs"] = mism == 0 && done > 0
 	info["slowest_run_s"] = slowest
 	a.Counters["race_runs"] += done
+	a.Counters["race_runs_on_wide_trees"] += wideRuns
 	a.Counters["race_reports"] += reports
 	a.Counters["race_run_oracle_mismatches"] += mism
 }
